@@ -224,12 +224,14 @@ def reference_graph_features(prog, rng, keyword_fields=True, namespaces=True, re
                 t.attrs.append('#[diplomat::attr(cpp, rename = "Cpp%s")]' % t.name)
             elif r < 0.4:
                 t.attrs.append('#[diplomat::attr(js, rename = "Js%s")]' % t.name)
+            # (never the name of one of the type's own fields, nor a name another method of the type was already renamed to: those are the
+            # user's own clashes, C++ and JS have one member namespace per type)
+            taken = {fn for fn, _ in getattr(t, "fields", [])} | {m_.name for m_ in t.methods}
             for m in t.methods:
                 if m.name != "make" and rng.random() < 0.15:
-                    # (never the name of one of the type's own fields: a method deliberately renamed onto a field is the user's clash,
-                    # C++ and JS have one member namespace)
-                    taken = {fn for fn, _ in getattr(t, "fields", [])}
-                    m.attrs.append('#[diplomat::attr(%s, rename = "%s")]' % (rng.choice(["*", "cpp", "js"]), rng.choice([n_ for n_ in ["renamed_" + m.name, "new", "delete", "class", "default"] if n_ not in taken])))
+                    nm = rng.choice([n_ for n_ in ["renamed_" + m.name, "new", "delete", "class", "default"] if n_ not in taken])
+                    taken.add(nm)
+                    m.attrs.append('#[diplomat::attr(%s, rename = "%s")]' % (rng.choice(["*", "cpp", "js"]), nm))
 
 
 TRAIT_PRIMS = ["i32", "u8", "u64", "f64", "bool", "i16", "usize"]
